@@ -280,6 +280,39 @@ fn finding_class(c: &Case, codes: &[String]) -> Option<&'static str> {
     }) {
         return Some("two-inline-fragments-on-one-type-share-a-key");
     }
+    // a field whose Rust name equals the member the generator names after a fragment spread in the same selection set
+    // (`f ...f`: `pub f` and `#[serde(flatten)] pub f`)
+    if has("E0124") && all_sets(&|set| {
+        use heck::ToSnakeCase;
+        let keys: Vec<String> = keys_of_set(set).iter().map(|k| k.to_snake_case()).collect();
+        set.iter().any(|s| matches!(s, ASel::Spread { name } if keys.contains(&name.to_snake_case())))
+    }) {
+        return Some("field-named-like-a-spread-fragments-member");
+    }
+    // `fragments_other_variant` adds the variant `Unknown` to every generated interface / union enum: a possible type called
+    // `Unknown` is declared twice
+    if has("E0428") && c.opts.other_variant && c.schema.types.iter().any(|t| matches!(t, AType::Object { name, .. } if name == "Unknown")) {
+        return Some("possible-type-named-unknown-with-the-other-variant");
+    }
+    {
+        // schema types whose Rust identifier is one of the two names every module defines itself, or two schema types
+        // whose identifiers coincide under normalization rust
+        use heck::ToUpperCamelCase;
+        let ident = |n: &str| if c.opts.normalization_rust { n.to_upper_camel_case() } else { n.to_string() };
+        let names: Vec<String> = c.schema.types.iter().filter_map(|t| match t {
+            AType::Enum { name, .. } | AType::Input { name, .. } | AType::Scalar { name } => Some(ident(name)),
+            _ => None,
+        }).collect();
+        if (has("E0428") || has("E0072")) && names.iter().any(|n| n == "ResponseData" || n == "Variables") {
+            return Some("schema-type-named-like-a-generated-item");
+        }
+        let mut sorted = names.clone();
+        sorted.sort();
+        sorted.dedup();
+        if has("E0428") && c.opts.normalization_rust && sorted.len() != names.len() {
+            return Some("schema-type-names-equal-after-normalization");
+        }
+    }
     if has("E0428") && !c.opts.normalization_rust && c.doc.ops.iter().any(|o| { use heck::ToSnakeCase; o.name.to_snake_case() == o.name }) {
         // `struct list_items;` next to `mod list_items`: both live in the type namespace
         return Some("operation-name-equals-its-module-name");
@@ -375,6 +408,30 @@ fn corpus() -> Vec<(ASchema, ADoc, Opts, &'static str)> {
         (schema.clone(), doc(vec![], vec![fld("dog", vec![fld("fooBar", vec![]), ASel::Spread { name: "String".into() }])], vec![AFrag { name: "String".into(), on: "Dog".into(), sels: vec![fld("name", vec![])] }]), Opts::default(), "fragment-named-like-a-type-the-generated-code-uses"),
         (schema.clone(), doc(vec![], vec![fld("animal", vec![ASel::Typename, ASel::Inline { on: "Dog".into(), sub: vec![fld("name", vec![])] }, ASel::Inline { on: "Dog".into(), sub: vec![fld("name", vec![]), fld("fooBar", vec![])] }])], vec![]), Opts::default(), "two-inline-fragments-on-one-type-share-a-key"),
         (schema.clone(), doc(vec![], vec![fld("animal", vec![ASel::Typename, ASel::Inline { on: "Dog".into(), sub: vec![fld("name", vec![])] }, ASel::Inline { on: "Dog".into(), sub: vec![fld("fooBar", vec![])] }])], vec![]), Opts::default(), ""),
+        (schema.clone(), doc(vec![], vec![fld("echo", vec![]), ASel::Spread { name: "echo".into() }], vec![AFrag { name: "echo".into(), on: "Query".into(), sels: vec![fld("dog", vec![fld("name", vec![])])] }]), Opts::default(), "field-named-like-a-spread-fragments-member"),
+        (ASchema { types: vec![
+                AType::Interface { name: "Animal".into(), fields: vec![f("name", ATy::named("String"))] },
+                obj("Dog", vec!["Animal"], vec![f("name", ATy::named("String"))]),
+                obj("Unknown", vec!["Animal"], vec![f("name", ATy::named("String"))]),
+                obj("Query", vec![], vec![f("animal", ATy::named("Animal"))]),
+            ], query: Some("Query".into()), mutation: None, subscription: None },
+            doc(vec![], vec![fld("animal", vec![ASel::Typename, fld("name", vec![])])], vec![]), Opts { other_variant: true, ..Opts::default() }, "possible-type-named-unknown-with-the-other-variant"),
+        (ASchema { types: vec![
+                AType::Input { name: "Variables".into(), one_of: false, fields: vec![("a".into(), ATy::named("Int"))] },
+                obj("Query", vec![], vec![f("echo", ATy::named("Int"))]),
+            ], query: Some("Query".into()), mutation: None, subscription: None },
+            doc(vec![AVar { name: "v".into(), ty: ATy::named("Variables"), default: None }], vec![fld("echo", vec![])], vec![]), Opts::default(), "schema-type-named-like-a-generated-item"),
+        (ASchema { types: vec![
+                AType::Enum { name: "response_data".into(), values: vec!["A".into(), "B".into()] },
+                obj("Query", vec![], vec![f("kind", ATy::named("response_data"))]),
+            ], query: Some("Query".into()), mutation: None, subscription: None },
+            doc(vec![], vec![fld("kind", vec![])], vec![]), both("Debug", "Debug", true), "schema-type-named-like-a-generated-item"),
+        (ASchema { types: vec![
+                AType::Enum { name: "sort_order".into(), values: vec!["A".into()] },
+                AType::Enum { name: "SortOrder".into(), values: vec!["B".into()] },
+                obj("Query", vec![], vec![f("a", ATy::named("sort_order")), f("b", ATy::named("SortOrder"))]),
+            ], query: Some("Query".into()), mutation: None, subscription: None },
+            doc(vec![], vec![fld("a", vec![]), fld("b", vec![])], vec![]), both("Debug", "Debug", true), "schema-type-names-equal-after-normalization"),
         (collide_schema(vec!["self", "Self", "blue"]), enum_doc_c.clone(), both("Debug", "Debug", true), "enum-values-equal-after-normalization"),
         (collide_schema(vec!["self", "Self", "blue"]), enum_doc_c.clone(), both("Debug", "Debug", false), ""),
         (collide_schema(vec!["Other", "blue"]), enum_doc_c.clone(), both("Debug", "Debug", false), ""),
@@ -449,7 +506,9 @@ pub fn run(a: &Args) -> i32 {
             lopts.scalars_module = Some(format!("crate::case_{}::sc", code_id(idx, 0)));
         }
         let res = ctx.run(&c.sdl, false, &c.qtext, &lopts);
-        if !res.diffs.is_empty() {
+        // (two items of ONE name - the witness of `schema-type-names-equal-after-normalization` - cannot be read back into the
+        // IR faithfully: the extractor attaches `impl` blocks to items by their name)
+        if !res.diffs.is_empty() && c.corpus_class != Some("schema-type-names-equal-after-normalization") {
             rep.disagree(json!({"what": "IR of the model's generate vs IR extracted from the implementation", "diffs": res.diffs.iter().take(5).collect::<Vec<_>>(),
                 "schema": c.sdl, "query": c.qtext, "options": lopts.describe()}));
         }
